@@ -588,5 +588,108 @@ func extractC01Round2(c *Ctx, kfiles []*ast.File, abci *ast.File, cached []strin
 	}
 	c.P("Definition processAttestation_commits_only_on_handler_success_and_returns_nil : bool := %v.", swallow)
 	c.Info("processAttestation_commits_only_on_handler_success_and_returns_nil", swallow)
+	return extractC01Genesis(c, kfiles)
+}
+
+// extractC01Genesis: what ExportGenesis reads for the pool, the batches and the denom table (whole-store
+// iterators; a per-token / per-index / filtered export is another list or breaks a flag), and what
+// InitGenesis writes them back with.
+func extractC01Genesis(c *Ctx, kfiles []*ast.File) error {
+	need := func(recv, name string) (*ast.FuncDecl, error) {
+		fd := FindFuncIn(kfiles, recv, name)
+		if fd == nil || fd.Body == nil {
+			return nil, fmt.Errorf("function %s.%s not found", recv, name)
+		}
+		return fd, nil
+	}
+	ex, err := need("", "ExportGenesis")
+	if err != nil {
+		return err
+	}
+	reads := c01CallOrder(ex, c01Set("GetUnbatchedTransactions", "GetUnbatchedTransactionsByContract", "IterateUnbatchedTransactions",
+		"IterateUnbatchedTransactionsByContract", "GetUnbatchedTxById", "GetUnbatchedTxByAmountAndId", "collectUnbatchedTransactions",
+		"filterAndIterateUnbatchedTransactions", "GetOutgoingTxBatches", "GetOutgoingTXBatch", "IterateOutgoingTxBatches",
+		"GetOutgoingTxBatchesByNonce", "GetLastOutgoingBatchByTokenType", "GetUnSlashedBatches",
+		"GetAllERC20ToDenoms", "GetAllERC20ToDenomsByContract", "GetAllDenomToERC20s", "GetERC20OfDenom", "GetDenomOfERC20", "CastAllERC20ToDenoms"))
+	c.P("(* ExportGenesis: the reads of the pool, the batches and the denom table, in source order *)")
+	c.P("Definition genesis_export_reads : list string := %s.", CoqStrList(reads))
+	c.Info("genesis_export_reads", reads)
+	// the exported pool / batch lists are not filtered afterwards: no `continue` and no if around an append in ExportGenesis
+	// that mentions unbatchedTransfers / batches being built from a subset
+	filtered := false
+	ast.Inspect(ex.Body, func(x ast.Node) bool {
+		if bs, ok := x.(*ast.BranchStmt); ok && bs.Tok == token.CONTINUE {
+			filtered = true
+		}
+		return true
+	})
+	c.P("Definition genesis_export_skips_entries : bool := %v.", filtered)
+	c.Info("genesis_export_skips_entries", filtered)
+	// GetUnbatchedTransactions = collectUnbatchedTransactions(ctx, types.OutgoingTXPoolKey); the collector appends every item
+	gu, err := need("Keeper", "GetUnbatchedTransactions")
+	if err != nil {
+		return err
+	}
+	whole := false
+	if len(gu.Body.List) == 1 {
+		if rs, ok := gu.Body.List[0].(*ast.ReturnStmt); ok && len(rs.Results) == 1 {
+			if ce, ok := rs.Results[0].(*ast.CallExpr); ok && strings.HasSuffix(c.Src(ce.Fun), "collectUnbatchedTransactions") && len(ce.Args) == 2 && c.Src(ce.Args[1]) == "types.OutgoingTXPoolKey" {
+				whole = true
+			}
+		}
+	}
+	appendsAll := func(fd *ast.FuncDecl) bool {
+		// exactly one function literal callback whose body is `out = append(out, x)` followed by `return false`
+		ok := false
+		ast.Inspect(fd.Body, func(x ast.Node) bool {
+			fl, isLit := x.(*ast.FuncLit)
+			if !isLit || len(fl.Body.List) != 2 {
+				return true
+			}
+			as, isAs := fl.Body.List[0].(*ast.AssignStmt)
+			rs, isRet := fl.Body.List[1].(*ast.ReturnStmt)
+			if isAs && isRet && len(as.Rhs) == 1 && len(Calls(as.Rhs[0], "append")) == 1 && len(rs.Results) == 1 && c.Src(rs.Results[0]) == "false" {
+				ok = true
+			}
+			return true
+		})
+		return ok
+	}
+	cu, err := need("Keeper", "collectUnbatchedTransactions")
+	if err != nil {
+		return err
+	}
+	whole = whole && appendsAll(cu)
+	c.P("(* GetUnbatchedTransactions collects every entry under the pool prefix *)")
+	c.P("Definition pool_read_is_whole_prefix : bool := %v.", whole)
+	c.Info("pool_read_is_whole_prefix", whole)
+	gb, err := need("Keeper", "GetOutgoingTxBatches")
+	if err != nil {
+		return err
+	}
+	ib, err := need("Keeper", "IterateOutgoingTxBatches")
+	if err != nil {
+		return err
+	}
+	allB := appendsAll(gb) && len(Calls(gb.Body, "IterateOutgoingTxBatches")) == 1
+	its := Calls(ib.Body, "ReverseIterator")
+	allB = allB && len(its) == 1 && len(its[0].Args) == 2 && c.Src(its[0].Args[0]) == "nil" && c.Src(its[0].Args[1]) == "nil"
+	c.P("(* GetOutgoingTxBatches collects every entry under the batch prefix *)")
+	c.P("Definition batches_read_is_whole_prefix : bool := %v.", allB)
+	c.Info("batches_read_is_whole_prefix", allB)
+	ig, err := need("", "InitGenesis")
+	if err != nil {
+		return err
+	}
+	io := c01CallOrder(ig, c01Set("setID", "initBridgeDataFromGenesis", "addUnbatchedTX", "setDenomToERC20"))
+	c.P("Definition order_InitGenesis : list string := %s.", CoqStrList(io))
+	c.Info("order_InitGenesis", io)
+	ibd, err := need("", "initBridgeDataFromGenesis")
+	if err != nil {
+		return err
+	}
+	ibo := c01CallOrder(ibd, c01Set("StoreBatch", "DeleteBatch", "CancelOutgoingTXBatch"))
+	c.P("Definition order_initBridgeDataFromGenesis : list string := %s.", CoqStrList(ibo))
+	c.Info("order_initBridgeDataFromGenesis", ibo)
 	return nil
 }
